@@ -483,7 +483,15 @@ class StoreRun:
                 self.in_call = False
                 if outcome["skipped"]:
                     self.skipped_ops += 1
+                    self.log.append("#%d %s skipped" % (i, op))
                     continue
+                self.log.append("#%d t=%s %s -> %s%s%s | transit=%s ready=%s | granted=%s pending=%s" % (
+                    i, self.env.now, op, outcome["status"],
+                    " tok#%d" % outcome["tok"].id if outcome.get("tok") is not None else "",
+                    " val=%r" % (outcome["value"],) if outcome.get("value") is not None else (" exc=%r" % (outcome["exc"],) if outcome["exc"] is not None else ""),
+                    [getattr(x, "id", x) for x in self.subj.in_transit()], [getattr(x, "id", x) for x in self.subj.ready()],
+                    ["%s%d" % (t.side, t.id) for t in self.toks if t.ev.triggered and t.state in ("pending", "granted")],
+                    ["%s%d" % (t.side, t.id) for t in self.toks if not t.ev.triggered and t.state == "pending"]))
                 self.executed_ops += 1
                 self.obs += 1
                 if op[0] not in ("settle", "adv"):
@@ -501,6 +509,7 @@ class StoreRun:
             res.aborted = a.label
             for o in self.oracles:
                 o.finish(self)
+        res.info["trace"] = self.log
         res.info["skipped_ops"] = self.skipped_ops
         res.info["executed_ops"] = self.executed_ops
         return res
